@@ -34,7 +34,7 @@ def _has_sym(x):
     if isinstance(x, Sym):
         return True
     if isinstance(x, numpy.ndarray):
-        return x.dtype == object
+        return core.raw_dtype(x) == object
     if isinstance(x, (list, tuple)):
         return any(_has_sym(e) for e in x)
     return False
@@ -43,7 +43,7 @@ def _has_sym(x):
 def const_arr(a):
     """real numeric ndarray -> SA with exact Sym constants (ints/bools stay native)"""
     a = numpy.asarray(a)
-    if a.dtype == object:
+    if core.raw_dtype(a) == object:
         return obj(a)
     if a.dtype.kind in "fc":
         return obj(a)
@@ -875,7 +875,7 @@ def _sym_float(x=0.0):
         if not x.isreal():
             raise TypeError("float() argument must be real")
         return x
-    if isinstance(x, numpy.ndarray) and x.dtype == object:
+    if isinstance(x, numpy.ndarray) and core.raw_dtype(x) == object:
         if x.size == 1:
             return Sym.lift(x.reshape(-1)[0])
         raise TypeError("only length-1 arrays can be converted to Python scalars")
@@ -887,7 +887,7 @@ def _sym_int_builtin(x=0, *a):
         if getattr(x, "isint", False):
             return x
         return core.sym_int(x)
-    if isinstance(x, numpy.ndarray) and x.dtype == object and x.size == 1:
+    if isinstance(x, numpy.ndarray) and core.raw_dtype(x) == object and x.size == 1:
         return core.sym_int(x.reshape(-1)[0])
     return _real_int(x, *a)
 
@@ -915,7 +915,7 @@ class _F64(numpy.float64):
     """numpy.float64 as seen by the code under test: a dtype-compatible type whose call keeps symbolic values"""
     def __new__(cls, x=0.0):
         if isinstance(x, numpy.ndarray):
-            return obj(x).copy() if x.dtype == object else numpy.float64(x)
+            return obj(x).copy() if core.raw_dtype(x) == object else numpy.float64(x)
         if isinstance(x, Sym):
             return x
         return Sym(numpy.float64(x))
@@ -924,7 +924,7 @@ class _F64(numpy.float64):
 class _F32(numpy.float32):
     def __new__(cls, x=0.0):
         if isinstance(x, numpy.ndarray):
-            if x.dtype != object:
+            if core.raw_dtype(x) != object:
                 return numpy.float32(x)
             if getattr(x, "_is_f32", False):
                 return x            # numpy.float32(float32 array) is the same object
@@ -1011,11 +1011,11 @@ class NP:
         shp = numpy.shape(a) if shape is None else _shape(shape)
         idt = None
         if dtype is None:
-            if isinstance(a, numpy.ndarray) and a.dtype != object and a.dtype.kind in "iub":
+            if isinstance(a, numpy.ndarray) and core.raw_dtype(a) != object and a.dtype.kind in "iub":
                 idt = a.dtype
             elif getattr(a, "_idt", None) is not None:
                 idt = a._idt
-            elif isinstance(a, numpy.ndarray) and a.dtype != object:
+            elif isinstance(a, numpy.ndarray) and core.raw_dtype(a) != object:
                 dtype = a.dtype
         if idt is not None:
             out = numpy.empty(shp, dtype=object)
@@ -1035,7 +1035,7 @@ class NP:
 
     def full_like(self, a, fill_value, dtype=None, order="K", subok=True, shape=None):
         out = self._like(a, 0, dtype, shape)
-        if isinstance(out, numpy.ndarray) and out.dtype == object:
+        if isinstance(out, numpy.ndarray) and core.raw_dtype(out) == object:
             out[...] = fill_value
             return out
         return numpy.full_like(out, fill_value)
@@ -1109,7 +1109,7 @@ class NP:
             if dtype is None:
                 return x
             dt = core._dt(dtype)
-            if x.dtype == object and dt is not None and dt.kind in "fc" and dt.itemsize >= 8:
+            if core.raw_dtype(x) == object and dt is not None and dt.kind in "fc" and dt.itemsize >= 8:
                 return x
         return self.array(x, dtype)
 
@@ -1186,7 +1186,7 @@ class NP:
         return _map(lambda e: e.imag, x)
 
     def round(self, x, decimals=0):
-        if isinstance(x, numpy.ndarray) and x.dtype != object:
+        if isinstance(x, numpy.ndarray) and core.raw_dtype(x) != object:
             return numpy.round(x, decimals)
         if not isinstance(x, (numpy.ndarray, Sym)):
             return numpy.round(x, decimals)
@@ -1204,7 +1204,7 @@ class NP:
 
     def where(self, cond, *args):
         if not args:
-            if isinstance(cond, numpy.ndarray) and cond.dtype == object:
+            if isinstance(cond, numpy.ndarray) and core.raw_dtype(cond) == object:
                 # index extraction forks per element
                 b = numpy.empty(cond.shape, dtype=bool)
                 for i in numpy.ndindex(*cond.shape):
@@ -1212,7 +1212,7 @@ class NP:
                 return numpy.where(b)
             return numpy.where(cond)
         a, b = args
-        if isinstance(cond, numpy.ndarray) and cond.dtype == object:
+        if isinstance(cond, numpy.ndarray) and core.raw_dtype(cond) == object:
             a_b, b_b, c_b = numpy.broadcast_arrays(numpy.asarray(a, dtype=object), numpy.asarray(b, dtype=object), cond)
             out = numpy.empty(c_b.shape, dtype=object)
             for i in numpy.ndindex(*c_b.shape):
@@ -1220,7 +1220,7 @@ class NP:
                     Sym.lift(a_b[i]) if c_b[i] else Sym.lift(b_b[i]))
             return out.view(SA)
         r = numpy.where(cond, a, b)
-        return obj(r) if r.dtype == object else r
+        return obj(r) if core.raw_dtype(r) == object else r
 
     def max(self, a, axis=None, **kw):
         if isinstance(a, (list, tuple)):
@@ -1324,7 +1324,7 @@ class NP:
             return False
         if x.shape != y.shape:
             return False
-        if x.dtype != object and y.dtype != object:
+        if core.raw_dtype(x) != object and core.raw_dtype(y) != object:
             return bool(numpy.array_equal(x, y, equal_nan=equal_nan))
         lits = []
         for i in numpy.ndindex(*x.shape):
@@ -1353,7 +1353,7 @@ class NP:
 def _as_sa(r):
     """object-dtype results of forwarded NumPy functions become SA views"""
     if isinstance(r, numpy.ndarray):
-        if r.dtype == object and not isinstance(r, SA):
+        if core.raw_dtype(r) == object and not isinstance(r, SA):
             return r.view(SA)
         return r
     if isinstance(r, tuple):
